@@ -92,7 +92,20 @@ NAME_ALPHABET = list("aAbBxX._-") + ["con", "Con", "aux", "é", "É", "ß", "/",
 TEXTS = ["", "x", "Hello", "cr\rlf", "crlf\r\nx", "a\u00a0b", "zero\u200bwidth", "a<b>&c\"d'e", "üñï©ødé", "日本語", "\U0001F600", "line1\nline2", "tab\there", "  padded  ", "a]]>b", "&amp;", "<!-- c -->", "é" * 40]
 
 
+RESERVED_PARTS = ["con", "aux", "nul", "prn", "com1", "lpt9", "clock$", "CON", "Aux"]
+
+
 def gen_name(r):
+    if r.random() < 0.12:
+        # dot-separated names built around the length limit: reserved device names as parts, and a last part
+        # that turns into one when the name is clipped ("auxx" -> "aux"); total length around what fits
+        parts = [r.choice(RESERVED_PARTS + ["a", "b"])]
+        target = r.choice([240, 244, 245, 246, 247, 248, 249, 250, 251, 255, 256])
+        tail = r.choice([x + y for x in RESERVED_PARTS[:6] for y in ("", "x", "xx")] + ["z"])
+        fill = max(1, target - len(parts[0]) - len(tail) - 2)
+        parts.append(r.choice("ab") * fill)
+        parts.append(tail)
+        return ".".join(parts)
     if r.random() < 0.6:
         return r.choice(NASTY_NAMES)
     n = r.choice([1, 2, 3, 5, 8, 30, 120, 250, 256, 300])
